@@ -149,6 +149,29 @@ pub fn field_mutants(f: &XzFile) -> Vec<(String, XzFile)> {
             out.push((format!("block {}: {} spare byte(s) {:#04x} after the LZMA2 end byte inside the declared compressed size (index consistent)", bi, extra, val), g));
         }
     }
+    // every field that describes the block's content (declared uncompressed size, block check, index record) written
+    // for a PREFIX of what the payload really decodes to - or for one byte more: consistent with each other, not with the data
+    for bi in 0..f.blocks.len() {
+        let n = f.blocks[bi].plain.len();
+        let mut ks: Vec<usize> = vec![0, n / 2, n.saturating_sub(1)];
+        ks.sort_unstable();
+        ks.dedup();
+        for k in ks {
+            if k >= n {
+                continue;
+            }
+            for declare in [true, false] {
+                let mut g = f.clone();
+                g.blocks[bi].plain.truncate(k);
+                g.blocks[bi].with_usize = declare;
+                out.push((format!("block {}: {}block check and index record written for the first {} of the {} bytes the payload decodes to", bi, if declare { "declared uncompressed size, " } else { "" }, k, n), g));
+            }
+        }
+        let mut g = f.clone();
+        g.blocks[bi].plain.push(0);
+        g.blocks[bi].with_usize = true;
+        out.push((format!("block {}: declared uncompressed size, block check and index record written for the {} bytes of the payload plus one zero byte", bi, n), g));
+    }
     let crc_at = |name: &str| {
         let (a, _) = span(name);
         u32::from_le_bytes([bytes[a], bytes[a + 1], bytes[a + 2], bytes[a + 3]])
@@ -215,6 +238,18 @@ pub fn field_mutants(f: &XzFile) -> Vec<(String, XzFile)> {
                 let mut g = f.clone();
                 g.o_records = Some(rs);
                 out.push((format!("index record {} {} {} := {}", bi, if which == 0 { "unpadded size" } else { "uncompressed size" }, t, v), g));
+            }
+        }
+    }
+    // the same extreme value in EVERY record at once (whatever is summed over the records then exceeds 64 bits from
+    // three records of 2^63-1 on, or 63 bits from two)
+    if recs.len() >= 2 {
+        for v in [(1u64 << 63) - 1, (1 << 63) - 4, 1 << 62, (1 << 62) + 4, 0x5555_5555_5555_5554, 1 << 32, 0] {
+            for which in 0..3 {
+                let rs: Vec<(Vec<u8>, Vec<u8>)> = recs.iter().map(|(a, b)| (mbi(if which != 1 { v } else { *a }), mbi(if which != 0 { v } else { *b }))).collect();
+                let mut g = f.clone();
+                g.o_records = Some(rs);
+                out.push((format!("every index record's {} := {}", ["unpadded size", "uncompressed size", "unpadded and uncompressed size"][which], v), g));
             }
         }
     }
@@ -437,6 +472,24 @@ pub fn run(tier: Tier) -> i32 {
                 if !o.v.is_err() {
                     ctx.violation(&case, &format!("file [{}], {}: inconsistent ({}) => Err, also when the source is read through {:?}", bases[*bi].0, what, reason, rd), &o, None);
                     return;
+                }
+            }
+            // ... nor on a transient hiccup of the source (Interrupted at any one call; for appended bytes also WouldBlock /
+            // TimedOut): a retried or reported hiccup never turns an inconsistent file into a success
+            let kinds: &[u8] = if what.starts_with("appended bytes") { &[1, 2, 3] } else { &[1] };
+            for kind in kinds {
+                for k in 0..400usize {
+                    let rd = Rd { fail_at: Some(k), fail_kind: *kind, ..Rd::default() };
+                    let case = Case::Dec { fmt: Fmt::Xz, opts: Opts::default(), input: Hex(bytes.clone()), rd: rd.clone(), sk: Sk::default() };
+                    let o = crate::cases::run_case(&case);
+                    ctx.traces.fetch_add(1, Ordering::Relaxed);
+                    if !o.fault_hit {
+                        break;
+                    }
+                    if !o.v.is_err() {
+                        ctx.violation(&case, &format!("file [{}], {}: inconsistent ({}) => Err, also when call #{} of the source fails once with error kind {} (1 Interrupted, 2 WouldBlock, 3 TimedOut)", bases[*bi].0, what, reason, k, kind), &o, None);
+                        return;
+                    }
                 }
             }
             if i % 499 == 0 {
